@@ -69,7 +69,9 @@ func (root *Root) ResolveExecutable(
 
 	op := exe.Ops[opName]
 	if op == nil {
-		if len(exe.Ops) == 1 {
+		// Only fall back to the sole operation when the caller did not ask
+		// for a specific one. An unknown name must not run some other operation.
+		if len(opName) == 0 && len(exe.Ops) == 1 {
 			for _, o := range exe.Ops {
 				op = o
 				break
